@@ -51,8 +51,10 @@
      result table of sorted), Vm::insert_value (host API);
      that AGrow points are conditional (capacity) is not modelled: the theorem covers them whether they occur or not.
    - that the allocation points, [vm_kids] and [vm_roots] are what the Rust code does is a hand transcription (tied
-     to the code by the heap dumps compared in C02Check.v and by the forced schedules, which collect at exactly
-     these points); 32-bit hash collisions of table keys are not modelled; when the == / hash of a
+     to the code by the heap dumps compared in C02Check.v, by the forced schedules, which collect at exactly
+     these points, and - for the allocation points - by C02Check.AllocSegCase: on every run the allocator calls
+     the crate makes per instruction of eight marked programs, classified by their layout, are compared with
+     map ap_kind (alloc_points ..) along Vm.v's own run); 32-bit hash collisions of table keys are not modelled; when the == / hash of a
      table key does not return (cyclic table as a key, A-37) the model keeps everything the table holds. *)
 From Coq Require Import NArith List Bool.
 Import ListNotations.
